@@ -1,6 +1,7 @@
 package vc
 
 import (
+	"go/token"
 	"fmt"
 	"go/ast"
 	"go/types"
@@ -257,6 +258,9 @@ func init() {
 					arg = c.Args[0]
 				}
 			}
+			if rel := e.lessContractOrder(st, call, arg); rel {
+				return nil
+			}
 			key := e.lessFieldKey(call.Args[0])
 			if key == "" {
 				// an uninterpreted comparator must not be mistaken for integer order
@@ -449,4 +453,108 @@ func (e *Exec) lessFieldKey(arg ast.Expr) string {
 		}
 	}
 	return ""
+}
+
+
+// lessContractOrder: sort.Sort(T(x)) where T.Less has a contract with `ensures[rule] ret0 == E`: x becomes a
+// rearrangement of itself without inversions, i.e. for i < j not E[a := x', i := j, j := i]. (sort.Sort gives this
+// for every strict weak order; that E is one is listed as an assumption.)
+func (e *Exec) lessContractOrder(st *State, call *ast.CallExpr, x ast.Expr) bool {
+	n, ok := e.typeOf(call.Args[0]).(*types.Named)
+	if !ok {
+		return false
+	}
+	var less *types.Func
+	for i := 0; i < n.NumMethods(); i++ {
+		if n.Method(i).Name() == "Less" {
+			less = n.Method(i)
+		}
+	}
+	if less == nil {
+		return false
+	}
+	c := e.P.ContractFor(less)
+	if c == nil {
+		return false
+	}
+	var rule *Clause
+	for _, en := range c.Ensures {
+		if en.Label == "rule" {
+			rule = en
+		}
+	}
+	if rule == nil {
+		return false
+	}
+	be, ok := rule.Expr.(*ast.BinaryExpr)
+	if !ok || be.Op != token.EQL || !isRet0(be.X) {
+		return false
+	}
+	sc, err := e.P.scopeFor(c)
+	if err != nil || e.P.CheckClause(c, rule, sc.pos, sc) != nil {
+		return false
+	}
+	// Less's preconditions must hold for every pair of positions of the slice being sorted
+	{
+		loc0 := e.lvalOf(st, x)
+		s0 := loc0.get(st)
+		e.Ctx.fresh++
+		i0 := Term{fmt.Sprintf("i!q%d", e.Ctx.fresh), SInt}
+		j0 := Term{fmt.Sprintf("j!q%d", e.Ctx.fresh), SInt}
+		f0 := e.pushFrame(e.P.ByKey[c.Pkg+":"+c.Key], sc.info)
+		env0 := st.Clone()
+		e.bindSignature(env0, f0, sc.decl, sc.ftype, s0, []Term{i0, j0})
+		for _, r := range c.Requires {
+			if e.P.CheckClause(c, r, sc.pos, sc) != nil {
+				continue
+			}
+			t := e.evalSpec(env0, r)
+			g := Term{fmt.Sprintf("(forall ((%s Int) (%s Int)) (=> (and (<= 0 %s) (< %s %s) (<= 0 %s) (< %s %s)) %s))", i0.S, j0.S, i0.S, i0.S, e.S.SlLen(s0).S, j0.S, j0.S, e.S.SlLen(s0).S, t.S), SBool}
+			e.Ctx.NeedsQuant = true
+			e.frames[0].callSeen[c.Key]++
+			e.Ctx.AddObligation(e.Fn.FullName(), "pre", fmt.Sprintf("%s/pre/sort.Sort:%s#%d/%s", e.fnName(), c.Key, e.frames[0].callSeen[c.Key], r.Label), st.PC, g, e.pos(call.Pos()))
+		}
+		e.popFrame()
+	}
+	// the permutation part (no order)
+	sortModelKey(e, st, call, x, "?")
+	loc := e.lvalOf(st, x)
+	ns := loc.get(st)
+	e.Ctx.fresh++
+	i := Term{fmt.Sprintf("i!q%d", e.Ctx.fresh), SInt}
+	j := Term{fmt.Sprintf("j!q%d", e.Ctx.fresh), SInt}
+	f := e.pushFrame(e.P.ByKey[c.Pkg+":"+c.Key], sc.info)
+	env := st.Clone()
+	// Less(j, i): the later element is not less than the earlier one
+	e.bindSignature(env, f, sc.decl, sc.ftype, ns, []Term{j, i})
+	e.spec++
+	rel := e.eval(env, be.Y)
+	e.spec--
+	e.popFrame()
+	if rel.Sort != SBool {
+		return true
+	}
+	e.Ctx.NeedsQuant = true
+	e.Ctx.Assume(st.PC, Term{fmt.Sprintf("(forall ((%s Int) (%s Int)) (! (=> (and (<= 0 %s) (< %s %s) (< %s %s)) (not %s)) :pattern ((select %s %s) (select %s %s))))",
+		i.S, j.S, i.S, i.S, j.S, j.S, e.S.SlLen(ns).S, rel.S, e.S.SlArr(ns).S, i.S, e.S.SlArr(ns).S, j.S), SBool})
+	e.Assumed["sort.Sort leaves no inversion of the order stated by "+c.Key+"'s ensures[rule] (assumed to be a strict weak order)"] = true
+	return true
+}
+
+
+// isRet0: the clause's left side is the first result (`ret0` before, `__ret[T](0)` after the clause was type-checked).
+func isRet0(x ast.Expr) bool {
+	if identName(x) == "ret0" {
+		return true
+	}
+	c, ok := x.(*ast.CallExpr)
+	if !ok || len(c.Args) != 1 {
+		return false
+	}
+	ix, ok := c.Fun.(*ast.IndexExpr)
+	if !ok || identName(ix.X) != "__ret" {
+		return false
+	}
+	lit, ok := c.Args[0].(*ast.BasicLit)
+	return ok && lit.Value == "0"
 }
